@@ -656,7 +656,7 @@ impl Subject for DzDict {
             rng.bytes(n).into_iter().map(|b| b'a' + b % 26).collect()
         }).collect();
         // generations of the same length: a rewrite then changes blocks, not the layout
-        let tlen = rng.range(600, 2600) as usize;
+        let tlen = rng.range(300, 1100) as usize;
         let min_pat = 3 + rng.below(2) as usize;
         for _gen in 0..3 {
             let mut train = Vec::new();
